@@ -14,6 +14,7 @@
 #include <time.h>
 #include <sys/wait.h>
 #include <sys/mman.h>
+#include <sys/personality.h>
 #include <string>
 #include <fstream>
 #include <sstream>
@@ -253,6 +254,16 @@ static J apply_sets(const std::vector<std::string> &sets)
 
 int main(int argc, char **argv)
 {
+	// Address-space randomisation off: values that depend on addresses (uninitialised stack slots holding pointers,
+	// allocator placement) are then the same in every process, so even defects that read such memory replay exactly.
+	if (!getenv("IOSIM_ASLR_OFF")) {
+		int pers = personality(0xffffffff);
+		if (pers != -1 && !(pers & ADDR_NO_RANDOMIZE) && personality(pers | ADDR_NO_RANDOMIZE) != -1) {
+			setenv("IOSIM_ASLR_OFF", "1", 1);
+			execv("/proc/self/exe", argv);
+		}
+		setenv("IOSIM_ASLR_OFF", "0", 1);
+	}
 	std::string mode, scen, file, trace, planout, sanlog = "/tmp";
 	long long seed = 1, from = 0, count = 1, stride = 1;
 	int verbose = 0, watchdog = 30;
